@@ -26,6 +26,9 @@ type C18Case struct {
 	HTTP10   bool     `json:"http10,omitempty"`
 	OwnCase  string   `json:"own_case"` // "" | upper (own element in different letter case: not the emitted element)
 	ViaName  string   `json:"via_name"`
+	// Crowd (chain-connect modes): before the case proper, this many CONNECTs are sent at the same instant on
+	// connections of their own, each with a Via chain of its own: every one reaches the upstream proxy with its chain
+	Crowd int `json:"crowd,omitempty"`
 }
 
 type c18Env struct {
@@ -171,7 +174,72 @@ func genC18(t *rapid.T) C18Case {
 	c.Form = rapid.SampledFrom([]string{"abs", "abs", "origin"}).Draw(t, "form")
 	c.HTTP10 = rapid.IntRange(0, 5).Draw(t, "http10") == 0
 	c.ViaName = rapid.SampledFrom([]string{"Via", "Via", "via", "VIA"}).Draw(t, "vianame")
+	if strings.HasPrefix(c.Mode, "chain-connect") && rapid.Bool().Draw(t, "crowd") {
+		c.Crowd = rapid.SampledFrom([]int{2, 4, 16, 48}).Draw(t, "crowdsize")
+	}
 	return c
+}
+
+// c18Crowd sends n CONNECTs through px at the same instant, each tagged with a Via element of its own, and compares what
+// the upstream proxy recorded: every tag exactly once, followed by this instance's element.
+func c18Crowd(base *c01Env, px *ProxyInst, own string, id int64, n int, key func(string) string) (fails []vstat.Failure) {
+	up := base.upstream
+	since := up.RequestCount()
+	host := base.origin.Addr
+	start := make(chan struct{})
+	var wg sync.WaitGroup
+	status := make([]int, n)
+	for i := 0; i < n; i++ {
+		wg.Add(1)
+		go func(i int) {
+			defer wg.Done()
+			tc, err := Dial(px.Addr)
+			if err != nil {
+				status[i] = -1
+				return
+			}
+			defer tc.Close()
+			tc.SetDeadline(time.Now().Add(15 * time.Second))
+			req := fmt.Sprintf("CONNECT %s HTTP/1.1\r\nHost: %s\r\nX-Vid: %d-c%d\r\nVia: 1.1 crowd-%d-%d\r\n\r\n", host, host, id, i, id, i)
+			<-start
+			tc.Write([]byte(req))
+			if m, err := ReadResponse(bufio.NewReader(tc), "CONNECT"); err == nil {
+				status[i] = m.Status
+			}
+		}(i)
+	}
+	time.Sleep(5 * time.Millisecond)
+	close(start)
+	wg.Wait()
+	seen := map[string]int{}
+	for _, r := range up.RequestsSince(since) {
+		if r.Msg == nil || r.Msg.Method != "CONNECT" {
+			continue
+		}
+		v := splitViaList(r.Msg.Get("Via"))
+		if len(v) == 0 || !strings.HasPrefix(v[0], fmt.Sprintf("1.1 crowd-%d-", id)) {
+			continue
+		}
+		seen[v[0]]++
+		if want := "1.1 " + strings.SplitN(own, " ", 2)[1]; len(v) != 2 || v[1] != want {
+			fails = append(fails, vstat.Failf(key("crowd:chain"), "one of %d simultaneous CONNECTs reached the upstream proxy with Via %q, want [its own tag, %q]", n, v, want))
+		}
+	}
+	for i := 0; i < n; i++ {
+		tag := fmt.Sprintf("1.1 crowd-%d-%d", id, i)
+		switch {
+		case status[i] == -1:
+			st.Inconclusive()
+		case status[i] != 200:
+			fails = append(fails, vstat.Failf(key("crowd:others-refused"), "one of %d simultaneous CONNECTs with only its own tag %q in Via was answered %d", n, tag, status[i]))
+		case seen[tag] != 1:
+			fails = append(fails, vstat.Failf(key("crowd:chain"), "of %d simultaneous CONNECTs the one tagged %q reached the upstream proxy %d times with its tag (all tags seen: %v)", n, tag, seen[tag], seen))
+		}
+		if len(fails) > 3 {
+			break
+		}
+	}
+	return fails
 }
 
 func runC18(c C18Case) (fails []vstat.Failure) {
@@ -267,6 +335,11 @@ func runC18(c C18Case) (fails []vstat.Failure) {
 	ver := "1.1"
 	if c.HTTP10 {
 		proto, ver = "HTTP/1.0", "1.0"
+	}
+	if strings.HasPrefix(c.Mode, "chain-connect") && c.Crowd > 0 {
+		if fails = c18Crowd(base, px, own, id, c.Crowd, key); len(fails) > 0 {
+			return fails
+		}
 	}
 	if strings.HasPrefix(c.Mode, "chain-connect") {
 		// a CONNECT that is passed on to an upstream proxy is a forwarded request too: the upstream proxy sees the
@@ -388,6 +461,9 @@ func runC18(c C18Case) (fails []vstat.Failure) {
 
 func classifyC18(c C18Case) (bool, string, []string) {
 	cls := []string{"mode-" + c.Mode, fmt.Sprintf("elems=%d", len(c.Elems)), fmt.Sprintf("lines=%d", len(c.Lines))}
+	if c.Crowd > 0 {
+		cls = append(cls, "simultaneous-connects")
+	}
 	own, b, same := false, false, false
 	ownPos := -1
 	for i, el := range c.Elems {
